@@ -305,6 +305,13 @@ def run_check(pid, tier, seed):
             os.makedirs(seeds_dir, exist_ok=True)
             subprocess.run([binpath(b), 'seeds', seeds_dir], env=base_env(tier, seed, os.path.join(outroot, 'seedgen'), scratch),
                            stdout=subprocess.DEVNULL, stderr=subprocess.DEVNULL)
+            # besides the harness' own seed files, a few pseudo-random full-length tapes (a pure function of VERIF_SEED):
+            # tape-decoding harnesses read an exhausted tape as zeros, so short inputs alone would bias every choice to its first option
+            import random
+            rng = random.Random(seed * 1000003 + 17)
+            for k in range(24):
+                ln = maxlen if k % 3 else max(8, maxlen // 4)
+                open(os.path.join(seeds_dir, 'rnd%02d' % k), 'wb').write(bytes(rng.getrandbits(8) for _ in range(ln)))
             for i in range(nw):
                 o = os.path.join(outroot, 'fuzz%d' % i)
                 corpus = os.path.join(o, 'corpus')
@@ -315,7 +322,7 @@ def run_check(pid, tier, seed):
                 env = base_env(tier, s, o, scratch, cfg, fuzz=True)
                 cmd = [binpath(b), 'fuzz', '-seed=%d' % s, '-runs=%d' % max(1, runs // nw), '-max_len=%d' % maxlen,
                        '-timeout=30', '-rss_limit_mb=6000', '-malloc_limit_mb=0', '-artifact_prefix=' + o + '/',
-                       '-print_final_stats=1', '-verbosity=0', '-use_value_profile=1', corpus]
+                       '-print_final_stats=1', '-verbosity=0', '-use_value_profile=1', '-len_control=0', corpus]
                 workers.append(('fuzz', Worker('fuzz%d' % i, cmd, env, o)))
         limit = tc.get('stage_timeout', 3600 if tier == 'thorough' else 900)
         deadline = time.time() + limit
